@@ -140,26 +140,29 @@ type source struct {
 
 	mu        sync.Mutex
 	loaded    int // leaves appended to log so far
+	published bool
 	sthReqs   int
 	consReqs  int
 	genuine   int // genuine STHs handed out
 	maxSTH    int // largest genuine tree size handed out (-1: none)
+	servable  int // largest tree size any answer (genuine or forged) has spoken of: the log serves up to here
 	perStart  map[int64]int
 	total     int
 	stormed   bool
 }
 
 func newSource(c *Case, tr []truth, rec *recorder, abort func(string)) *source {
-	s := &source{c: c, truth: tr, key: srcKey(c.SrcKey), other: srcKey((c.SrcKey + 2) % 4), rec: rec, abort: abort, maxSTH: -1, perStart: map[int64]int{}}
+	s := &source{c: c, truth: tr, key: srcKey(c.SrcKey), other: srcKey((c.SrcKey + 2) % 4), rec: rec, abort: abort, maxSTH: -1, servable: -1, perStart: map[int64]int{}}
 	s.log = reflog.New(1, uint64(t0)*1e6)
 	return s
 }
 
 // grow makes the reference log hold exactly n leaves (monotone) and publishes its root.
 func (s *source) grow(n int) {
-	if n <= s.loaded && s.loaded > 0 {
+	if n <= s.loaded && s.published {
 		return
 	}
+	s.published = true
 	for i := s.loaded; i < n; i++ {
 		s.log.AppendRaw(s.truth[i].Leaf, s.truth[i].Extra)
 	}
@@ -308,28 +311,42 @@ func (s *source) getSTH(ctx context.Context, req *http.Request) (*http.Response,
 	switch kind {
 	case fNone:
 		s.grow(size)
-		r := s.root()
-		var root [32]byte
-		copy(root[:], r.RootHash)
-		body := mk(r.TreeSize, r.TimestampNanos/1e6, root, s.key)
+		root := s.log.Tree().Root(size) // the log may already hold more (a forged head spoke of its future)
+		body := mk(uint64(size), t0+uint64(size), [32]byte(root), s.key)
 		s.genuine++
 		s.maxSTH = size
+		if size > s.servable {
+			s.servable = size
+		}
 		s.rec.add(ev{Kind: "sth", Size: size, Status: 200})
 		return httpRsp(req, 200, body, nil), nil
 	case fSpecial:
-		// a forged head: a bigger tree under a fresh root. Variant by request number: signed by another key,
-		// or a genuine signature over a different tree size.
-		r := s.root()
-		var root [32]byte
-		copy(root[:], r.RootHash)
+		// a forged head the client must refuse. Even requests: the log's true future tree (entries it really
+		// holds and will serve) under a signature by another key - or, when the history has no future, a
+		// bigger tree under an invented root; odd requests: a genuine signature, but made over a smaller tree.
+		cur := s.loaded
 		var body []byte
-		if n%2 == 0 {
-			fake := sha256.Sum256(append([]byte("forged"), root[:]...))
-			body = mk(r.TreeSize+17, r.TimestampNanos/1e6+1, fake, s.other)
+		if future := min(cur+17, len(s.truth)); n%2 == 0 && future > cur {
+			s.grow(future)
+			r := s.root()
+			var root [32]byte
+			copy(root[:], r.RootHash)
+			body = mk(r.TreeSize, r.TimestampNanos/1e6, root, s.other)
+			if future > s.servable {
+				s.servable = future
+			}
 		} else {
-			b, _ := json.Marshal(map[string]any{"tree_size": r.TreeSize + 5, "timestamp": r.TimestampNanos / 1e6, "sha256_root_hash": b64(root[:]),
-				"tree_head_signature": b64(signSTH(s.key, r.TimestampNanos/1e6, r.TreeSize, root))})
-			body = b
+			r := s.root()
+			var root [32]byte
+			copy(root[:], r.RootHash)
+			if n%2 == 0 {
+				fake := sha256.Sum256(append([]byte("forged"), root[:]...))
+				body = mk(r.TreeSize+17, r.TimestampNanos/1e6+1, fake, s.other)
+			} else {
+				b, _ := json.Marshal(map[string]any{"tree_size": r.TreeSize + 5, "timestamp": r.TimestampNanos / 1e6, "sha256_root_hash": b64(root[:]),
+					"tree_head_signature": b64(signSTH(s.key, r.TimestampNanos/1e6, r.TreeSize, root))})
+				body = b
+			}
 		}
 		s.rec.add(ev{Kind: "sth", Fault: kind, Size: -1, Status: 200})
 		return httpRsp(req, 200, body, nil), nil
@@ -356,7 +373,7 @@ func (s *source) getConsistency(ctx context.Context, req *http.Request, first, s
 	}
 	s.mu.Lock()
 	defer s.mu.Unlock()
-	if first < 0 || second < first || second > int64(s.maxSTH) {
+	if first < 0 || second < first || second > int64(s.servable) {
 		s.rec.add(ev{Kind: "cons", First: first, Second: second, Status: 400})
 		return httpRsp(req, 400, []byte("impossible tree sizes"), nil), nil
 	}
@@ -421,9 +438,10 @@ func (s *source) getEntries(ctx context.Context, req *http.Request, start, end i
 	}
 	s.mu.Lock()
 	defer s.mu.Unlock()
-	if start < 0 || end < start || start >= int64(s.maxSTH) {
-		// RFC 6962 s4.6: nothing to return for a range outside the tree the log has announced
-		s.rec.add(ev{Kind: "entries", First: start, Second: end, Status: 400, BeyondSTH: true})
+	beyond := start >= int64(s.maxSTH) // not covered by any head the client could have verified
+	if start < 0 || end < start || start >= int64(s.servable) {
+		// RFC 6962 s4.6: nothing to return for a range outside the tree the log has spoken of
+		s.rec.add(ev{Kind: "entries", First: start, Second: end, Status: 400, BeyondSTH: beyond})
 		return httpRsp(req, 400, []byte("range outside the tree"), nil), nil
 	}
 	rsp, err := s.log.GetLeavesByRange(context.Background(), &trillian.GetLeavesByRangeRequest{LogId: 1, StartIndex: start, Count: end - start + 1})
@@ -432,8 +450,8 @@ func (s *source) getEntries(ctx context.Context, req *http.Request, start, end i
 	}
 	leaves := rsp.Leaves
 	asked := int(end - start + 1)
-	if int64(asked) > int64(s.maxSTH)-start {
-		asked = s.maxSTH - int(start)
+	if int64(asked) > int64(s.servable)-start {
+		asked = s.servable - int(start)
 	}
 	if len(leaves) > asked {
 		leaves = leaves[:asked] // never serve what no STH has announced yet
@@ -456,6 +474,6 @@ func (s *source) getEntries(ctx context.Context, req *http.Request, start, end i
 		s.rec.add(ev{Kind: "entries", Fault: kind, First: start, Second: end, Status: st})
 		return r, e
 	}
-	s.rec.add(ev{Kind: "entries", First: start, Second: end, Served: k, Status: 200, Short: k < int(end-start+1)})
+	s.rec.add(ev{Kind: "entries", First: start, Second: end, Served: k, Status: 200, Short: k < int(end-start+1), BeyondSTH: beyond})
 	return httpRsp(req, 200, body, nil), nil
 }
